@@ -143,6 +143,7 @@ func updateListAndMap(list []types.WorkReportHash, newItems []types.WorkReportHa
 			itemMap[item] = true
 		}
 	}
+	sort.Slice(result, func(i, j int) bool { return bytes.Compare(result[i][:], result[j][:]) < 0 })
 	return result
 }
 
